@@ -1,6 +1,8 @@
 # /verif build: translate -> coq_makefile -> full .vo build (never -vos)
+# every coqc runs under a shell timeout (a diverging tactic must never stall setup or a check)
 PY=/venv/bin/python
 COQ=coq
+COQC_T=timeout 900 coqc
 .PHONY: setup translate coq-makefile coq clean lint
 
 setup: translate coq-makefile coq
@@ -11,8 +13,10 @@ translate:
 coq-makefile:
 	cd $(COQ) && ( echo "-Q theories DvcData"; echo "-arg -w -arg -notation-overridden,-deprecated-hint-without-locality,-deprecated-instance-without-locality"; find theories -name '*.v' | sort ) > _CoqProject && coq_makefile -f _CoqProject -o Makefile
 
+# -k: build everything that can be built; then require the property files of every claimed check
 coq: coq-makefile
-	timeout 3000 $(MAKE) -C $(COQ) -j16
+	-timeout 3000 $(MAKE) -C $(COQ) -j16 -k COQC="$(COQC_T)"
+	$(PY) tools/claimed_built.py
 
 lint:
 	@! grep -rnE '\b(Admitted|admit|Axiom|Parameter|Conjecture|bypass_check)\b|Unset Guard' $(COQ)/theories --include='*.v' | grep -v '^\S*:\s*[0-9]*:\s*(\*' 
